@@ -298,6 +298,11 @@ def check(rep, F, tier, replay=None):
             rep.violation("COLRET-gate", key_, "%s stores a collateral return output without any min-ADA computation: set_collateral_return(1 lovelace to a base address) is accepted and build_tx() returns a body whose collateral return is below the minimum (add_output rejects the same output)" % key_, {})
     rep.floor("functions storing TransactionBuilder.collateral_return", 3, n_cr)
     minada_addr_rule(rep, F)
+    import common as _common
+    import p_c13 as _c13
+    _c13.size_head_rule(rep, F, _common.load_table("conway_cddl.json"))
+    from ruleutil import boot_size_real_rule
+    boot_size_real_rule(rep, F)
     from ruleutil import boot_size_each_rule
     boot_size_each_rule(rep, F)
     return rep.finish(
